@@ -196,6 +196,8 @@ def c01_4(ck, prog):
                                                                             chr(spec[i]) if spec[i] else 0))
         else:
             r.ok(key)
+    from rules.C03 import field_last_comparisons
+    field_last_comparisons(prog, r)
     lv = prog.fn('load_and_validate_field', HDR)
     cases, default, sw = typetab.switch_map(lv, 'field')
     for code in range(1, last + 1):
@@ -283,6 +285,68 @@ LIMITS = {
 }
 
 
+def loader_limits_clamped(prog, r):
+    """Whatever is stored as the loader's maximum message size / fd count is at most the protocol maximum:
+    a constant, or a value for which `value > MAXIMUM` was refuted (or which was just set to MAXIMUM) on the
+    path to the store."""
+    # the protocol maxima as the compiler folds them where they are used (the macros are expressions)
+    LIM = {}
+    for fld, mac in (('max_message_size', 'DBUS_MAXIMUM_MESSAGE_LENGTH'),
+                     ('max_message_unix_fds', 'DBUS_MAXIMUM_MESSAGE_UNIX_FDS')):
+        for f in lib.prod_funcs(prog, {MSG}):
+            for b, i, ev in f.events():
+                for x in walk(event_expr(ev)):
+                    if is_int(x) and x.get('name') == mac:
+                        LIM[fld] = x['v']
+            for blk in f.blocks.values():
+                t = blk.get('term')
+                if t and t.get('cond') is not None:
+                    for x in walk(t['cond']):
+                        if is_int(x) and x.get('name') == mac:
+                            LIM[fld] = x['v']
+        if fld not in LIM:
+            raise AnalysisBroken('%s is not used in dbus-message.c' % mac)
+    n = 0
+    for f in lib.prod_funcs(prog, {MSG}):
+        stores = [(ev, lhs, rhs) for b, i, ev in f.events() for lhs, how, rhs in written_lvalues(ev)
+                  if lhs.get('k') == 'member' and lhs.get('rec') == 'DBusMessageLoader' and lhs.get('field') in LIM
+                  and how == '=']
+        if not stores:
+            continue
+
+        def akey(atom, resolve):
+            if atom[0] == 'cmp' and atom[1] == '<=' and is_ref(atom[2]) and is_int(atom[3]):
+                return ('le', atom[3]['v'], frozenset([atom[2]['id']]))
+            return None
+
+        def on_event(user, ev, ctx, f=f):
+            for lhs, how, rhs in written_lvalues(ev):
+                if lhs.get('k') == 'member' and lhs.get('rec') == 'DBusMessageLoader' and lhs.get('field') in LIM \
+                        and how == '=':
+                    lim = LIM[lhs['field']]
+                    v = ctx.const_of(rhs) if rhs is not None else None
+                    ok = v is not None and v <= lim
+                    if not ok and rhs is not None and is_ref(rhs):
+                        ok = any(k[0] == 'le' and k[1] <= lim and rhs.get('id') in k[2] and val is True
+                                 for k, val in ctx.atoms().items())
+                    if not ok:
+                        ctx.report('loader->%s is set to %s, which is not known to be <= %d on this path (the clamp '
+                                   'does not reach the stored value)' % (lhs['field'], estr(rhs), lim), ev['line'],
+                                   key=(lhs['field'], ev['line']))
+            return user
+        ex = Explorer(f, on_event=on_event, atom_key=akey, track='auto', cap=200000).run()
+        for ev, lhs, rhs in stores:
+            n += 1
+            key = '%s:%s<=protocol-maximum' % (f.name, lhs['field'])
+            mine = [rep for k, rep in ex.reports.items() if k[0] == lhs['field'] and k[1] == ev['line']]
+            if mine:
+                r.violation(key, f.name, MSG, mine[0]['line'], mine[0]['reason'], mine[0]['path'])
+            else:
+                r.ok(key)
+    if n < 4:
+        raise AnalysisBroken('only %d stores to the loader limits found' % n)
+
+
 def c01_6(ck, prog):
     r = ck.rule('C01.6', 'size and nesting limits are the specification\'s and are compared before use', 'W',
                 breaks='oversized arrays / messages / nesting are accepted', floor=10)
@@ -323,6 +387,8 @@ def c01_6(ck, prog):
         else:
             r.violation(n + ':used', vb.name, VAL, None,
                         '%s is not compared against in the validator / framing check' % n)
+
+    loader_limits_clamped(prog, r)
 
     # array fast path: whole elements only (and the length limit precedes the recursion)
     def akey(atom, resolve):
@@ -451,7 +517,13 @@ def c01_5b(ck, prog):
                                'short' % user[1], ev['line'], key='array-unaligned')
                     return 'ok'
             return user
-        ex = Explorer(fn, init='ok', on_event=on_event, track=None, cap=300000).run()
+        def on_edge(user, bid, idx, atom, sense, ctx):
+            # entering the array part of the shared string/array case: alignment is owed from here on
+            if atom is not None and atom[0] == 'cmp' and atom[1] == '==' and is_ref(atom[2], 'current_type') \
+                    and is_int(atom[3], ord('a')) and sense is True and user == 'ok':
+                return ('need', fn.blocks[bid]['term']['line'])
+            return user
+        ex = Explorer(fn, init='ok', on_event=on_event, on_edge=on_edge, track=None, cap=300000).run()
         key = '%s:array-aligned-even-when-empty' % name
         if ex.reports:
             r.from_reports(ex.reports, keyfn=lambda k, rep, key=key: key)
